@@ -8,6 +8,7 @@ package checks
 // snapshotted again after every call. Oracle: identical snapshots and identical raw addresses.
 
 import (
+	"errors"
 	"fmt"
 	"math"
 	"math/big"
@@ -37,7 +38,8 @@ func init() {
 			"kinds (scalars, strings, big numbers by pointer and by value, times, URLs, UIDs, media, typed slices with spare capacity, arrays, interfaces, maps, " +
 			"pointer sharing, cycles when recursion support is on). One evaluation = one ce.MarshalToCBEDocument / ce.MarshalToCTEDocument call " +
 			"(RecursionSupport off/on, random field-name style and omit behaviour) bracketed by deep snapshots of everything reachable (unexported fields of " +
-			"big.Int/big.Float/apd.Decimal/time.Time included, slices up to cap, maps sorted, pointer identity graph + raw addresses). Oracle: snapshots identical. " +
+			"big.Int/big.Float/apd.Decimal/time.Time included, slices up to cap, maps sorted, pointer identity graph + raw addresses), followed by the same marshal through ce.MarshalCBE/MarshalCTE " +
+			"into a writer that fails at byte offset k (directed values: every k up to 96; graphs: three random k), each followed by another snapshot. Oracle: snapshots identical. " +
 			"Non-trivial = the value reaches at least one pointer-held big number or at least 5 pointers/slices/maps; distinct = distinct value recipes.",
 		Assumptions: []string{
 			"only the state after Marshal returns is compared (a modification undone before returning is not observable here)",
@@ -757,6 +759,24 @@ func c18Sig(codec string, l c18Line) string {
 	return "modified:" + ctx + "@" + codec
 }
 
+// c18FailingWriter accepts failAt bytes in total and fails the Write that would go beyond (after taking what fits).
+type c18FailingWriter struct {
+	failAt, n int
+}
+
+func (w *c18FailingWriter) Write(p []byte) (int, error) {
+	if w.n+len(p) > w.failAt {
+		k := w.failAt - w.n
+		if k < 0 {
+			k = 0
+		}
+		w.n += k
+		return k, errors.New("c18: no space left on device")
+	}
+	w.n += len(p)
+	return len(p), nil
+}
+
 func runC18(c *fw.Ctx, idx int) {
 	var root interface{}
 	var recipe string
@@ -866,6 +886,46 @@ func runC18(c *fw.Ctx, idx int) {
 			root = build()
 			before = c18Snapshot(root)
 			continue
+		}
+		// the same marshal into a writer that fails at byte offset k (accepting the bytes before it): the value must be left
+		// alone on the failure path too. Directed values: every offset up to 96; random graphs: three offsets.
+		if err == nil && p == nil && len(doc) > 0 {
+			var offsets []int
+			if idx < c18DirectedCount() {
+				for k := 0; k <= len(doc) && k <= 96; k++ {
+					offsets = append(offsets, k)
+				}
+			} else {
+				offsets = []int{c.Rng.Intn(len(doc) + 1), c.Rng.Intn(len(doc) + 1), c.Rng.Intn(len(doc) + 1)}
+			}
+			damaged := false
+			for _, k := range offsets {
+				w := &c18FailingWriter{failAt: k}
+				var werr error
+				wp, _ := fw.Guard(func() {
+					if combo.Codec == "cbe" {
+						werr = ce.MarshalCBE(root, w, cfg)
+					} else {
+						werr = ce.MarshalCTE(root, w, cfg)
+					}
+				})
+				c.Inc("failing-writer.marshals")
+				if werr != nil || wp != nil {
+					c.Inc("failing-writer.failed-as-expected")
+				}
+				after := c18Snapshot(root)
+				if at, x, y := c18Diff(before, after); at >= 0 {
+					c.Fail(c18Sig(combo.Codec, x)+"@writer-fails", map[string]interface{}{"value": recipe, "codec": combo.Codec, "recursion": combo.Recursion, "path": x.Path,
+						"before": x.Val, "after": y.Path + " = " + y.Val, "writer_fails_at_byte": k, "document_length": len(doc), "marshal_err": errStr(werr)})
+					damaged = true
+					break
+				}
+			}
+			if damaged {
+				root = build()
+				before = c18Snapshot(root)
+				continue
+			}
 		}
 		if c.WantSample() && nontrivial && c.Rng.Intn(50) == 0 {
 			c.Sample(map[string]interface{}{"value": recipe, "codec": combo.Codec, "recursion": combo.Recursion, "snapshot_lines": len(before.Lines),
